@@ -503,7 +503,14 @@ func genC11(g GenCtx) interface{} {
 		// several independent trees and a join across them, one of them dead (or
 		// dying alone) when the join is built
 		j := genJoin(g, joinKinds[(g.Idx/16)%len(joinKinds)], false)
-		j.DeadBase, j.SrcCancelAtStep = pick(g.Rng, "src", "mid", "dst", "dst"), 0
+		if g.Rng.Intn(2) == 0 {
+			j.DeadBase, j.SrcCancelAtStep = pick(g.Rng, "src", "mid", "dst", "dst"), 0
+		} else {
+			// ... or all alive, and the join alone is closed (1..4 times over): exactly
+			// what it created stops, and ALL of it - the goroutine population of the
+			// long-lived controllers is what it was before
+			j.DeadBase, j.SrcCancelAtStep, j.Cycles = "", 0, 1+g.Rng.Intn(3)
+		}
 		return &Tree{Prop: g.Prop, Join: j}
 	}
 	sc, rng := baseTree(g)
